@@ -13,6 +13,14 @@ NOTE = ("Trusted: z3 5.1 (sample cross-checked with cvc5 1.4), NumPy object-dtyp
 CLAIMED = {
  'C01': dict(text="v^T A u = a(u_h, v_h), b.v = l(v_h), Functional = v^T A u decided as identities in symbolic vertex coordinates and coefficient vectors for every enumerated (mesh class, element, integrand, basis kind) configuration; real _assemble/interpolate/basis constructors executed",
              tech="symbolic execution of assembly + basis construction on symbolic geometry; polynomial/rational identity queries (z3)", ref="4/C01"),
+ 'C03': dict(text="jump of the value / normal / tangential trace across every interior facet is identically zero in symbolic geometry, coefficients and facet point, for two-cell patches in ALL vertex numberings / cyclic shifts / rotations; C1, Crouzeix-Raviart, Morley/Hermite functionals; element reuse and post-adaptive meshes",
+             tech="symbolic execution of mesh constructors, Dofs, orient, gbasis, InteriorFacetBasis with a symbolic quadrature point; rational identity queries per orientation path", ref="4/C03"),
+ 'C07': dict(text="soundness (returned DOFs zero => trace zero at a symbolic facet point), minimality (existential), closure against the mesh tables, selector equivalence under symbolic geometry/threshold with per-path solver-proved membership, name filters, histories",
+             tech="symbolic execution of get_dofs/FacetBasis/facets_satisfying; identity, existential and path-validity SMT queries", ref="4/C07"),
+ 'C12': dict(text="uniform refinement with ALL coarse coordinates symbolic: new vertices are solver-proved constant convex combinations; child-in-parent map, conformity, counts, measures (identities / exact weight determinants) and tag propagation for all geometries; tetrahedral diagonal choice explored per path",
+             tech="symbolic execution of refined()/_uniform + linear/polynomial identity queries + path exploration", ref="4/C12"),
+ 'C13': dict(text="adaptive refinement (tri/tet/line) explored path by path over the longest-edge comparisons with symbolic coordinates; per path the C12 obligations + marked cells subdivided + subdomains = descendants; adaptive_theta membership proved per path",
+             tech="concolic path exploration (witness/abstraction/nlsat feasibility) of the real refiners + identity queries per path", ref="4/C13"),
  'C04': dict(text="geometric formulation: same global number => same mapped DOF location for all geometries (linear identities), different numbers of one name => different locations for some geometry (existential), locality of assembled entries through the real COO bookkeeping with fresh symbols per local entry; gap-free range / sharing pattern / table agreement read off concretely",
              tech="symbolic execution of Dofs/CellBasis on symbolic geometry; linear identity + existential SMT queries", ref="4/C04"),
  'C09': dict(text="every exported element: delivered derivative fields equal the symbolic derivative (astdiff) of the delivered value at a symbolic reference point; chain rule through gbasis on a cell with symbolic vertices; partition of unity, nodality, flux/circulation and point-value duality",
